@@ -19,10 +19,13 @@ func init() {
 		Thorough:   []ConfigLoad{{"legacy", []string{"./..."}}, {"default", []string{"./proto", "./internal/impl", "./internal/encoding/messageset"}}},
 		Run: func(c *Ctx) {
 			c.ruleMessageSetFrame("R-MSET-FRAME")
+			c.ruleLenPrefixConsistent("R-LENPREFIX-CONSISTENT", []string{"internal/encoding/messageset", "encoding/protowire"}, 3)
+			c.ruleReflMsgMerge("R-REFL-MSG-MERGE", 5)
 			c.ruleLazyBufRecords("R-LAZYBUF-RECORDS", 3)
 			c.ruleExtLazyParity("R-EXT-LAZY-PARITY", extLazyPairs, 3)
 			c.ruleConsumeTagRange("R-CONSUMETAG-RANGE", []string{"internal/encoding/messageset"}, 4)
 			c.ruleUnknownGuard("R-UNKNOWN-GUARD", 5)
+			c.ruleMsetUnknownCanon("R-MSET-UNKNOWN-CANON")
 			c.ruleNegLen("R-NEG-LEN", []string{"internal/encoding/messageset"}, map[string]string{
 				"internal/encoding/messageset.ConsumeFieldValue nn": "re-parses the length prefix of `message`, which is b[:n:n] of a ConsumeBytes call that already succeeded in this function",
 			}, 5)
@@ -99,5 +102,117 @@ func (c *Ctx) ruleMessageSetFrame(rule string) {
 		p := pairsIn(fi)
 		want := []string{"FieldItem,EndGroupType", "FieldMessage,BytesType", "FieldTypeID,VarintType"}
 		R.Check(strings.Join(sortedSet(p), ";") == strings.Join(want, ";"), rule, fi.Key+" item fields", P.Pos(fi.Decl), strings.Join(want, "; "), "the item reader handles {"+strings.Join(sortedSet(p), "; ")+"} instead of {"+strings.Join(want, "; ")+"}")
+	}
+}
+
+// R-MSET-UNKNOWN-CANON: an unknown MessageSet item is stored in the unknown
+// fields as tag(type id, bytes) + length + payload by both decoders. The
+// callback of messageset.Unmarshal receives the payload with its length
+// prefix as encoded in the input when wantLen is true, and without it
+// otherwise. Both have to store the canonical (minimal) length: copying the
+// prefixed value verbatim keeps a non-minimal length varint of the input in
+// one decoder only, and the two decoded messages differ (unknown bytes, Size,
+// Marshal).
+func (c *Ctx) ruleMsetUnknownCanon(rule string) {
+	R, P := c.R, c.P
+	R.Rule(rule, "in the callbacks that impl.unmarshalMessageSet and proto.unmarshalMessageSet pass to messageset.Unmarshal, the bytes stored after AppendTag into the unknown fields are protowire.AppendBytes(·, payload), where payload is the callback's value (wantLen = false) or the first result of protowire.ConsumeBytes(value) (wantLen = true); the value is never appended verbatim", 2)
+	for _, key := range []string{"internal/impl.unmarshalMessageSet", "proto.UnmarshalOptions.unmarshalMessageSet"} {
+		fi := c.need(rule, key)
+		if fi == nil {
+			continue
+		}
+		info := fi.Info()
+		var lit *ast.FuncLit
+		wantLen := ""
+		walkAll(fi.Decl.Body, func(n ast.Node) bool {
+			call, ok := n.(*ast.CallExpr)
+			if !ok || calleeKey(info, call) != "internal/encoding/messageset.Unmarshal" || len(call.Args) != 3 {
+				return true
+			}
+			wantLen = exprStr(call.Args[1])
+			lit, _ = call.Args[2].(*ast.FuncLit)
+			return true
+		})
+		if lit == nil || (wantLen != "true" && wantLen != "false") || len(lit.Type.Params.List) < 2 {
+			R.Unk(rule, key, P.Pos(fi.Decl), "messageset.Unmarshal(b, <const>, func(num, v) …) not found")
+			continue
+		}
+		var vObj types.Object
+		np := 0
+		for _, f := range lit.Type.Params.List {
+			for _, nm := range f.Names {
+				np++
+				if np == 2 {
+					vObj = info.Defs[nm]
+				}
+			}
+		}
+		defs := localDefs(lit.Body, info)
+		isV := func(e ast.Expr) bool {
+			id, ok := unparen(e).(*ast.Ident)
+			return ok && info.Uses[id] == vObj
+		}
+		isPayloadOfV := func(e ast.Expr) bool {
+			id, ok := unparen(e).(*ast.Ident)
+			if !ok {
+				return false
+			}
+			ds := defs[info.Uses[id]]
+			if len(ds) != 1 || ds[0].idx != 0 {
+				return false
+			}
+			call, ok := unparen(ds[0].rhs).(*ast.CallExpr)
+			return ok && calleeKey(info, call) == "encoding/protowire.ConsumeBytes" && len(call.Args) == 1 && isV(call.Args[0])
+		}
+		seenTag, stored, verdict := false, 0, ""
+		var pos ast.Node = lit
+		walk(lit.Body, func(n ast.Node) bool {
+			as, ok := n.(*ast.AssignStmt)
+			if !ok || len(as.Rhs) != 1 {
+				return true
+			}
+			call, ok := unparen(as.Rhs[0]).(*ast.CallExpr)
+			if !ok {
+				return true
+			}
+			switch calleeKey(info, call) {
+			case "encoding/protowire.AppendTag":
+				seenTag = true
+			case "encoding/protowire.AppendBytes":
+				if !seenTag || len(call.Args) != 2 {
+					return true
+				}
+				stored++
+				pos = as
+				switch {
+				case wantLen == "false" && isV(call.Args[1]):
+				case wantLen == "true" && isPayloadOfV(call.Args[1]):
+				case wantLen == "true" && isV(call.Args[1]):
+					verdict = "the value, which already carries a length prefix (wantLen = true), is wrapped in a second one"
+				default:
+					verdict = "AppendBytes stores `" + exprStr(call.Args[1]) + "`, which is not the item's payload"
+				}
+			case "builtin.append":
+				if !seenTag || len(call.Args) != 2 || !call.Ellipsis.IsValid() {
+					return true
+				}
+				stored++
+				pos = as
+				if wantLen == "true" && isV(call.Args[1]) {
+					verdict = "the value is appended verbatim with the length prefix as encoded in the input: a non-minimal length varint survives here but not in the other decoder (which re-encodes with AppendBytes), so the two decoded messages differ in unknown bytes, Size and Marshal output"
+				} else {
+					verdict = "`" + exprStr(call.Args[1]) + "` is appended without a length prefix written by AppendBytes"
+				}
+			}
+			return true
+		})
+		switch {
+		case stored == 0:
+			R.Unk(rule, key+" unknown item", P.Pos(lit), "no store into the unknown fields after AppendTag found in the callback")
+		case verdict != "":
+			R.Bad(rule, key+" unknown item", P.Pos(pos), verdict)
+		default:
+			R.OK(rule, key+" unknown item", P.Pos(pos), "tag + AppendBytes(payload), wantLen = "+wantLen)
+		}
 	}
 }
